@@ -579,6 +579,10 @@ class DiscretizedSpace(TensorSpace):
             use_uniform = False
             nodes_on_bdry = None
 
+        if not isinstance(self.weighting, ConstWeighting):
+            # Only a weighting constant fits into the `uniform_discr` form
+            use_uniform = False
+
         if use_uniform:
             ctor = 'uniform_discr'
             if self.ndim == 1:
